@@ -43,7 +43,7 @@ thread_local! {
 }
 #[cfg(feature = "verif-hooks")]
 static CURRENT_SCHEDULE: crate::verif_support::VerifLocal<CurrentSchedule> =
-    crate::verif_support::VerifLocal::new(<CurrentSchedule as Default>::default);
+    crate::verif_support::VerifLocal::new();
 
 #[derive(Debug, Default)]
 pub struct CurrentSchedule {
@@ -86,7 +86,7 @@ thread_local! {
 #[allow(clippy::complexity)]
 #[allow(deprecated)]
 pub static TASK_ID_TO_TAGS: crate::verif_support::VerifLocal<RefCell<HashMap<TaskId, Arc<dyn Tag>>>> =
-    crate::verif_support::VerifLocal::new(|| RefCell::new(HashMap::new()));
+    crate::verif_support::VerifLocal::new();
 
 #[cfg(not(feature = "verif-hooks"))]
 thread_local! {
@@ -94,7 +94,7 @@ thread_local! {
 }
 #[cfg(feature = "verif-hooks")]
 pub static LABELS: crate::verif_support::VerifLocal<RefCell<HashMap<TaskId, Labels>>> =
-    crate::verif_support::VerifLocal::new(|| RefCell::new(HashMap::new()));
+    crate::verif_support::VerifLocal::new();
 
 /// An `Execution` encapsulates a single run of a function under test against a chosen scheduler.
 /// Its only useful method is `Execution::run`, which executes the function to completion.
